@@ -4,6 +4,7 @@ complex-modulus step), the SVD-oracle contract per input, and the property oracl
 invariances, setup-level = array-level)."""
 import math
 from vlib.common import *
+from props import c09_replaylib as RL
 
 TOL = Fraction(1, 10**9)          # agreement of K with the exact trace form / between invariant variants (relative)
 TOL_SV = Fraction(1, 10**10)      # SVD oracle contract: power sums of singular values vs tr G, tr G^2 (relative)
@@ -58,6 +59,7 @@ def oracle(ctx, obs):
     for c in [o for o in obs if o["kind"] == "harness_crash"]:
         ctx.violation("S5", "harness crashed", {"kind": "crash"}, c)
     for o in obs:
+        RL.cur(ctx, o)
         k = o["kind"]
         if k == "lens":
             mx = o["max"]
@@ -206,6 +208,7 @@ def correspondence(ctx, obs, max_n_float):
     """S4: run the executable twin in Coq on the magnitudes Rust computed"""
     exprs, meta = [], {}
     for o in obs:
+        RL.cur(ctx, o)
         if o["kind"] not in ("val", "fval") or o["base"]["class"] != "ok":
             continue
         if o["kind"] == "fval" and o["n"] > max_n_float:
@@ -225,6 +228,7 @@ def correspondence(ctx, obs, max_n_float):
     ctx.cov["obligations"] += len(exprs)
     for cid, _ in exprs:
         o = meta[cid]
+        RL.cur(ctx, o)
         txt = res.get(cid)
         m = re.match(r"\((true|false), (true|false), (true|false), (true|false), (.*)\)$", txt or "")
         if not m:
@@ -250,6 +254,7 @@ def interval_cases(ctx, obs, limit):
     """S4 (real-valued model incl. the complex modulus): |schmidt_K ROps n (mag_matrix n a) - rust| <= 1e-9 by interval"""
     goals, meta = [], {}
     for o in obs:
+        RL.cur(ctx, o)
         if len(goals) >= limit:
             break
         if o["kind"] not in ("val", "fval") or o["n"] > 3 or o["n"] < 2 or o["base"]["class"] != "ok":
@@ -274,6 +279,7 @@ def interval_cases(ctx, obs, limit):
         if ok or cid not in meta:
             continue
         o = meta[cid]
+        RL.cur(ctx, o)
         ctx.case_failures.append({"case": cid})
         ctx.violation("S4", f"real-valued model (complex moduli, trace form) and schmidt_number = {kval(o['base'])!r} disagree beyond 1e-9 (n={o['n']})",
                       {"kind": "value", "family": o.get("family", "float"), "n": o["n"]}, dict(describe(o), rust_k=kval(o["base"]), case=cid), found_input=False)
@@ -296,8 +302,23 @@ def unknown_failing(ctx):
     return any(v["found_input"] and match_finding(v, fs, ctx.prop) is None for v in ctx.violations)
 
 
+def replay_evaluate(ctx, obs):
+    oracle(ctx, obs)
+    if os.path.exists(os.path.join(COQ, "Model", "Schmidt.vo")):
+        correspondence(ctx, obs, 14)
+        interval_cases(ctx, obs, 8)
+
+
 def run(ctx):
     binp = build_harness(ctx)
+    RL.install(ctx)
+    if getattr(ctx, "replay", None):
+        status = RL.replay(ctx, binp, "C11", ["schmidt"], replay_evaluate)
+        if status is not None:
+            return status
+        ctx.violations.clear()
+        ctx.proof_failures.clear()
+        ctx.cov["obligations"] = ctx.cov["discharged"] = 0
     msgs, spans = regen(ctx, ["schmidt"])
     ctx.cov["translated_spans"] = {k: v for k, v in spans.items() if "schmidt" in v["file"]}
     for m in msgs:
@@ -305,9 +326,10 @@ def run(ctx):
     proved = (not msgs) and prove(ctx, "C11")
     quick = ctx.tier == "quick"
     ncases, max_side, nsetup, nbig = (70, 16, 12, 3) if quick else (260, 40, 32, 10)
-    obs = run_harness(ctx, binp, ["c11", ctx.seed, ncases, max_side, nsetup, 2000, nbig])
+    obs = RL.harvest(ctx, binp, ["c11", ctx.seed, ncases, max_side, nsetup, 2000, nbig])
     oracle(ctx, obs)
     for o in [x for x in obs if x["kind"] == "val"][7:10]:
+        RL.cur(ctx, o)
         ctx.sample({"family": o["family"], "n": o["n"], "re": o["re"][:9], "im": o["im"][:9], "rust_k": kval(o["base"])})
     if os.path.exists(os.path.join(COQ, "Model", "Schmidt.vo")):
         correspondence(ctx, obs, 8 if quick else 12)
@@ -317,7 +339,7 @@ def run(ctx):
     if (not proved or ctx.case_failures) and not unknown_failing(ctx):
         ctx.log("S5 deep search for a failing input (obligations broken or model/implementation disagree)")
         for k in range(3):
-            obs2 = run_harness(ctx, binp, ["c11", ctx.seed + 7919 * (k + 1), 400, 24, 8, 3000])
+            obs2 = RL.harvest(ctx, binp, ["c11", ctx.seed + 7919 * (k + 1), 400, 24, 8, 3000])
             oracle(ctx, obs2)
             if unknown_failing(ctx):
                 break
